@@ -580,66 +580,58 @@ def rejections(repo, res):
 @rule(
     "SUBDOMAIN-IDS",
     ["C06", "C19"],
-    "_compute_form_ir maps UFL's \"otherwise\" to -1 and rejects every user-supplied negative subdomain id: the guard of the "
-    "`must be non-negative` rejection is evaluated (interpreted) on sample id tuples and must be true exactly when a user id "
-    "is negative - an id of -1 would otherwise share the slot reserved for the everywhere integral",
-    min_instances=6,
+    "_compute_form_ir interpreted on sample subdomain-id tuples: UFL's \"otherwise\" becomes -1; every user-supplied id that is "
+    "negative (-1 is reserved for the everywhere integral) or does not fit the `int` of ufcx_form.form_integral_ids (> 2^31 - 1: the C "
+    "initialiser would wrap to a negative id and break the ordering) is rejected with an exception; all other ids - Python or NumPy "
+    "integers - are listed unchanged, once per id of the tuple",
+    min_instances=10,
 )
 def subdomain_ids(repo, res):
-    from ..absint import Interp, Node, Raised
-    from ..lnodes_model import load_classes
+    from ..absint import Node, PyNative, Raised
+    from .descriptor import form_ir_sample
 
     rep = repo.mod("ffcx.ir.representation")
     f = rep.func("_compute_form_ir")
     res.functions.add(f.key)
-    guard = None
-    for n in ast.walk(f.node):
-        if isinstance(n, ast.If) and any(isinstance(b, ast.Raise) and "non-negative" in ast.unparse(b) for b in n.body):
-            guard = n
-    if guard is None:
-        key = f"{f.key}:negative-id-rejection"
+    loc = rep.line(f.node)
+
+    class int64(int, PyNative):  # a NumPy integer scalar: an Integral that is not a Python int subclass in numpy; the model keeps arithmetic
+        def __repr__(self):
+            return f"np.int64({int(self)})"
+
+    INT_MAX = 2**31 - 1
+    samples = [(("otherwise",), None), ((0,), None), ((3, "otherwise"), None), ((0, 7, 12), None), ((INT_MAX,), None), ((int64(5), int64(9)), None),
+               ((-1,), "negative"), ((-2,), "negative"), ((4, -1), "negative"), ((INT_MAX + 1,), "too large"), ((3, 2**40), "too large"), ((int64(2**31),), "too large")]
+    for ids, why in samples:
+        key = f"{f.key}:ids:{ids}"
         res.ob(key)
-        res.fail(key, "negative subdomain ids are not rejected (no `must be non-negative` raise): -1 is reserved for the everywhere integral", rep.line(f.node))
-        return
-    mp = None
-    for n in ast.walk(f.node):
-        if isinstance(n, ast.Assign) and isinstance(n.targets[0], ast.Name) and n.targets[0].id == "subdomain_ids" and "otherwise" in ast.unparse(n.value):
-            mp = n
-    it = Interp(repo, load_classes(repo), primary="ffcx.ir.representation")
-    samples = [(("otherwise",), False), ((0,), False), ((3, "otherwise"), False), ((-1,), True), ((-2,), True), ((4, -1), True), ((0, 7, 12), False)]
-    for ids, want in samples:
-        key = f"{f.key}:negative-id-rejection:{ids}"
-        res.ob(key)
-        env = {"itg_data": Node("IntegralData", subdomain_id=ids, integral_type="cell"), "itg_index": 0, "form_id": 0}
+        itg = [Node("IntegralData", integral_type="cell", subdomain_id=ids)]
+        it, args, _n = form_ir_sample(repo, 2, "full", itg=itg)
+        args[4] = {(5, 0): "integral_a"}
+        args[5] = {"integral_a": ["dom_a"]}
         try:
-            # the statements of the same block that precede the guard define the names it may use
-            blk = None
-            for n in ast.walk(f.node):
-                for fld in ("body", "orelse"):
-                    seq = getattr(n, fld, None)
-                    if isinstance(seq, list) and guard in seq:
-                        blk = seq
-            it.ctx.append(rep)
-            try:
-                for st in (blk[:blk.index(guard)] if blk else []):
-                    if isinstance(st, (ast.Assign, ast.AnnAssign)):
-                        it.stmt(st, env)
-                if mp is not None and "subdomain_ids" not in env:
-                    env["subdomain_ids"] = it.expr(mp.value, dict(env))
-                got = bool(it.truth(it.expr(guard.test, env)))
-            finally:
-                it.ctx.pop()
+            out = it.call_f(f, args)
+            raised = None
         except Raised as e:
-            got = f"raises {e.what}"
-        if got is not want:
-            res.fail(key, f"for integral ids {ids} the rejection guard `{ast.unparse(guard.test)[:80]}` is {got}, expected {want}: "
-                     + ("a user id of -1 is accepted and lands in the slot of the everywhere integral (m*dx(-1) + 2*m*dx lists both under id -1)" if want else
-                        "a legitimate id is rejected"), rep.line(guard))
-    key = f"{f.key}:otherwise-is-minus-one"
-    res.ob(key)
-    if mp is None:
-        res.fail(key, "`otherwise` is not mapped to -1", rep.line(f.node))
-    else:
-        v = it.expr(mp.value, {"itg_data": Node("IntegralData", subdomain_id=(5, "otherwise", 0))})
-        if list(v) != [5, -1, 0]:
-            res.fail(key, f"ids (5, otherwise, 0) are mapped to {v}, expected [5, -1, 0]", rep.line(mp))
+            out, raised = None, e.what
+        if why is not None:
+            if raised is None:
+                got = out.f.get("subdomain_ids", {}).get("cell") if isinstance(out, Node) else out
+                res.fail(key, f"integral ids {ids} are accepted (listed as {got}): "
+                         + ("-1 is reserved for the everywhere integral, m*dx(-1) + 2*m*dx would list both kernels under id -1"
+                            if why == "negative" else
+                            f"form_integral_ids is an array of C int; {max(i for i in ids if i != 'otherwise')} does not fit and the compiler wraps it to a negative id, "
+                            "out of order and indistinguishable from a reserved one"), loc)
+            continue
+        if raised is not None:
+            res.fail(key, f"legitimate integral ids {ids} are rejected ({raised})", loc)
+            continue
+        got = out.f.get("subdomain_ids", {}).get("cell") if isinstance(out, Node) else None
+        want = [(-1 if i == "otherwise" else int(i)) for i in ids]
+        if got is None or [(-1 if i == "otherwise" else int(i)) for i in got] != want or any(i == "otherwise" for i in got):
+            res.fail(key, f"integral ids {ids} are listed as {got}, expected {want} (\"otherwise\" is id -1, every other id is kept)", loc)
+        nm = out.f.get("integral_names", {}).get("cell") if isinstance(out, Node) else None
+        if nm != ["integral_a"] * len(ids):
+            res.fail(key, f"an integral over the ids {ids} is listed with names {nm}: it counts once for each of its ids", loc)
+
+
